@@ -194,7 +194,14 @@ def path_parser(ctx, job, box):
     utf8 = ctx.boolvar('utf8')
     c = ctx.bvvar('c', 32)
     ctx.assume(z3.And(z3.UGE(c, 0x20), z3.ULE(c, 0x7e)))
-    chars = [0x1b, ord(slot), ord(code)] + ([shift] if shift is not None else []) + [c]
+    if job.params.get('shift_inside_csi'):
+        # the shift character arrives in the middle of a CSI sequence: it is not one of the controls the
+        # grammar executes there, so it must not select G1 in either mode
+        chars = [0x1b, ord('['), ord('1'), shift, ord('m'), c]
+        shift = None
+        slot, code = '(', 'B'
+    else:
+        chars = [0x1b, ord(slot), ord(code)] + ([shift] if shift is not None else []) + [c]
     steps = [['set_use_utf8', utf8], ['feed_cps', chars]]
     outcome, msg = 'ok', None
     try:
@@ -240,6 +247,8 @@ def path_parser(ctx, job, box):
 
 def jobs(tier):
     js = [Job('table/' + n, path_table, tname=n, prop=PROP) for n in ('B', '0', 'U', 'V')]
+    for sh, nm in ((0x0e, 'SO'), (0x0f, 'SI')):
+        js.append(Job('parser/csi-%s' % nm, path_parser, slot='(', code='B', shift=sh, shift_inside_csi=True, prop=PROP))
     for slot in '()':
         for code in 'B0UVx':
             for shift in (None, 0x0e, 0x0f):
